@@ -187,7 +187,8 @@ static std::string real_uff(const Environment& env, CallConvId cc, FuncFrame& fr
   probe._sa_reg_id = before._sa_reg_id;
   same = memcmp(&probe, &before, sizeof(FuncFrame)) == 0;
   std::string sa = "-";
-  if (frame.sa_reg_id() != before.sa_reg_id()) { snprintf(buf, sizeof(buf), "%u", frame.sa_reg_id()); sa = buf; }
+  // the SA register after the call (set_sa_reg_id with the current value is a no-op, so reporting the final value is exact)
+  if (frame.sa_reg_id() != Reg::kIdBad) { snprintf(buf, sizeof(buf), "%u", frame.sa_reg_id()); sa = buf; }
   snprintf(buf, sizeof(buf), " uff %x %x %x %x %s %s %d",
            frame.dirty_regs(RegGroup(0)) & ~before.dirty_regs(RegGroup(0)), frame.dirty_regs(RegGroup(1)) & ~before.dirty_regs(RegGroup(1)),
            frame.dirty_regs(RegGroup(2)) & ~before.dirty_regs(RegGroup(2)), frame.dirty_regs(RegGroup(3)) & ~before.dirty_regs(RegGroup(3)),
